@@ -128,6 +128,17 @@ fn update_statistics(route_ctx: &mut RouteContext, transport: &(dyn TransportCos
     state.set_total_duration(total_dur);
 }
 
+/// Verification-only accessor (never compiled in normal builds): exposes the crate-private schedule caches to the
+/// native replay binary under /verif.
+#[cfg(reinterpretcat_vrp_verif)]
+pub fn verif_schedule_caches(route_ctx: &RouteContext) -> (Vec<Option<Timestamp>>, Vec<Option<Timestamp>>) {
+    let total = route_ctx.route().tour.total();
+    (
+        (0..total).map(|idx| route_ctx.state().get_latest_arrival_at(idx).copied()).collect(),
+        (0..total).map(|idx| route_ctx.state().get_waiting_time_at(idx).copied()).collect(),
+    )
+}
+
 #[cfg(kani)]
 #[path = "/verif/kani/vrp-core/schedule_update_proofs.rs"]
 mod verif_kani_proofs;
